@@ -26,9 +26,12 @@ type Endpoint struct {
 	OnlyLookback bool
 	// Must: a datum at ts of the right signal has to be in the result.  Allowed: it may be (allowed widening).
 	// Everything not allowed must not be returned, nor admitted by a scan of a data table.
-	Must     func(w Win, ts int64) bool
-	Allowed  func(w Win, ts int64) bool
-	Run      func(x *Exec, cluster bool, w Win) Resp
+	Must    func(w Win, ts int64) bool
+	Allowed func(w Win, ts int64) bool
+	Run     func(x *Exec, cluster bool, w Win) Resp
+	// RunParts (instead of Run): the request reads several windows one after the other; every part is judged against
+	// its own window with Must/Allowed.
+	RunParts func(x *Exec, cluster bool, w Win) []Part
 	Thorough bool // only in the thorough tier
 	// FloatNs: the route reads its nanosecond start/end with ParseFloat (Loki query_range); only used to NAME a
 	// deviation (a float64 holds 19-digit integers only to the nearest multiple of 256), never to excuse one.
@@ -169,6 +172,30 @@ func endpoints() []*Endpoint {
 				Run: func(x *Exec, cluster bool, w Win) Resp { return promSelect(x, cluster, w, f, reg) }})
 		}
 	}
+	// several Selects on one Querier, every part judged against its own window
+	for _, f := range promHintFuncs {
+		for _, reg := range promRegimes {
+			for _, seq := range promSelectSeqs {
+				f, reg, seq := f, reg, seq
+				group, allowed := "prom_select_raw_same_querier", closed
+				if reg.Align15 {
+					allowed = func(w Win, ts int64) bool { return closed(align15(w), ts) }
+				}
+				if reg.Downsample(f) {
+					group = "prom_select_downsample_15s_same_querier"
+					allowed = func(w Win, ts int64) bool { a := align15(w); return ts >= a.S && ts < a.E+15e9 }
+				}
+				quick := (f == "" || f == "rate" || f == "sum_over_time") && (reg.Name == "step0" || reg.Name == "step15s_aligned")
+				thoroughFuncs := map[string]bool{"": true, "rate": true, "sum_over_time": true, "count_over_time": true, "last_over_time": true, "abs": true, "sum": true, "quantile_over_time": true}
+				if !quick && !thoroughFuncs[f] {
+					continue
+				}
+				add(&Endpoint{Name: "prom_select_" + orName(f) + "_" + reg.Name + "_" + seq.Name, Group: group, Items: "samples", Signal: typeMetric, Unit: 1e6,
+					Thorough: !quick, Must: closed, Allowed: allowed,
+					RunParts: func(x *Exec, cluster bool, w Win) []Part { return promSelectParts(x, cluster, w, f, reg, seq.Shifts) }})
+			}
+		}
+	}
 	// the HTTP endpoints on top of it (start floored / end ceiled to 15 s by the controller, 5 min look-back by the engine):
 	promHTTPAllowed := func(lookback, bucket int64) func(w Win, ts int64) bool {
 		return func(w Win, ts int64) bool {
@@ -184,6 +211,26 @@ func endpoints() []*Endpoint {
 	add(&Endpoint{Name: "prom_http_query_instant_selector", Group: "prom_http_query_instant", Items: "samples", Signal: typeMetric, Unit: 1e9, OnlyLookback: true,
 		Must: never, Allowed: func(w Win, ts int64) bool { return ts >= w.E-300e9 && ts <= w.E },
 		Run: get("/api/v1/query?query=" + q(sel) + "&time={Es}")})
+
+	// the real PromQL engine with two selectors that read DIFFERENT windows: `sel or (sel offset d)`; d = 1 d + 150 s /
+	// 31 d + 150 s puts the rows of class b1d / b1mo in the middle of the offset selector's 5-minute look-back
+	lookback := func(w Win, ts int64) bool { return ts > w.S && ts <= w.E }
+	for _, o := range []struct {
+		name string
+		d    int64
+	}{{"1d", day + 150e9}, {"31d", month + 150e9}} {
+		o := o
+		expr := sel + " or (" + sel + " offset " + fmt.Sprint(o.d/1e9) + "s)"
+		add(&Endpoint{Name: "prom_http_query_instant_or_offset_" + o.name, Group: "prom_http_query_instant_offset", Items: "samples", Signal: typeMetric, Unit: 1e9, OnlyLookback: true,
+			Must: union(lookback, -o.d), Allowed: union(closed, -o.d),
+			Run: get("/api/v1/query?query=" + q(expr) + "&time={Es}")})
+		add(&Endpoint{Name: "prom_http_query_range_or_offset_" + o.name, Group: "prom_http_query_range_offset", Items: "samples", Signal: typeMetric, Unit: 1e9,
+			Must: never, Allowed: union(promHTTPAllowed(300e9, 0), -o.d), Thorough: o.name == "31d",
+			Run: get("/api/v1/query_range?query=" + q(expr) + "&start={Ss}&end={Es}&step=1")})
+	}
+	add(&Endpoint{Name: "prom_http_query_instant_sum_over_time_two_ranges", Group: "prom_http_query_instant_offset", Items: "samples", Signal: typeMetric, Unit: 1e9, OnlyLookback: true,
+		Must: never, Allowed: union(closed, -(day + 150e9)),
+		Run: get("/api/v1/query?query=" + q(`sum_over_time(`+sel+`[5m]) or sum_over_time(`+sel+`[10m] offset `+fmt.Sprint((day+150e9)/1e9)+`s)`) + "&time={Es}")})
 
 	// ---------------- Tempo ----------------
 	// start/end are whole seconds; whether a span exactly at start or end belongs to the window is not specified by
@@ -252,6 +299,12 @@ func endpoints() []*Endpoint {
 		}, open, closed, false)
 	add(&Endpoint{Name: "prof_render_diff", Group: "prof_render_diff", Items: "profs", Signal: -1, Unit: 1e6, Must: open, Allowed: closed,
 		Run: get("/pyroscope/render-diff?leftQuery=" + q(typeID+sel) + "&rightQuery=" + q(typeID+sel) + "&leftFrom={Sms}&leftUntil={Ems}&rightFrom={Sms}&rightUntil={Ems}")})
+	add(&Endpoint{Name: "prof_render_diff_right_1d_earlier", Group: "prof_render_diff", Items: "profs", Signal: -1, Unit: 1e6, Must: union(open, -day), Allowed: union(closed, -day),
+		Run: func(x *Exec, cluster bool, w Win) Resp {
+			r := shiftWin(w, -day, "")
+			return x.http(cluster, "GET", fmt.Sprintf("/pyroscope/render-diff?leftQuery=%s&rightQuery=%s&leftFrom=%d&leftUntil=%d&rightFrom=%d&rightUntil=%d",
+				q(typeID+sel), q(typeID+sel), w.S/1e6, w.E/1e6, r.S/1e6, r.E/1e6), "", nil)
+		}})
 	pf("prof_analyze_query", "prof_analyze_query", "/querier.v1.QuerierService/AnalyzeQuery",
 		func(w Win) map[string]any { return se(w, map[string]any{"query": sel}) }, never, closed, false)
 	return out
@@ -315,16 +368,25 @@ var promRegimes = []promRegime{
 }
 
 func promSelect(x *Exec, cluster bool, w Win, fn string, reg promRegime) Resp {
+	qr, err := promQuerier(x, cluster, w)
+	if err != nil {
+		return Resp{Status: -1, Err: err.Error()}
+	}
+	return promSelectOn(qr, w, fn, reg)
+}
+
+func promQuerier(x *Exec, cluster bool, w Win) (storage.Querier, error) {
+	svc := &service.CLokiQueriable{ServiceData: model.ServiceData{Session: x.registry(cluster)}}
+	ctx := context.Background()
+	return svc.SetOidAndDB(ctx).Querier(ctx, w.S/1e6, w.E/1e6)
+}
+
+func promSelectOn(qr storage.Querier, w Win, fn string, reg promRegime) Resp {
 	hw := w
 	if reg.Align15 {
 		hw = align15(w)
 	}
-	svc := &service.CLokiQueriable{ServiceData: model.ServiceData{Session: x.registry(cluster)}}
-	ctx := context.Background()
-	qr, err := svc.SetOidAndDB(ctx).Querier(ctx, hw.S/1e6, hw.E/1e6)
-	if err != nil {
-		return Resp{Status: -1, Err: err.Error()}
-	}
+	var err error
 	hints := &storage.SelectHints{Start: hw.S / 1e6, End: hw.E / 1e6, Step: reg.StepMs, Func: fn, Range: reg.rangeFor(fn)}
 	var sb strings.Builder
 	var pan any
@@ -352,6 +414,53 @@ func promSelect(x *Exec, cluster bool, w Win, fn string, reg promRegime) Resp {
 		return Resp{Status: 500, Err: err.Error(), Text: sb.String()}
 	}
 	return Resp{Status: 200, Text: sb.String()}
+}
+
+// shiftWin moves a window by d nanoseconds.
+func shiftWin(w Win, d int64, tag string) Win {
+	return Win{Name: w.Name + tag, S: w.S + d, E: w.E + d}
+}
+
+// promSelectSeqs: several Selects on ONE Querier (what the PromQL engine does for an expression with several
+// selectors / offsets): the window itself, one day earlier (the rows of class b1d and the older sample of both2d lie
+// there), one day later (a1d), 31 days earlier (b1mo).
+var promSelectSeqs = []struct {
+	Name   string
+	Shifts []int64
+}{
+	{"w_then_1d_earlier", []int64{0, -day}},
+	{"1d_earlier_then_w", []int64{-day, 0}},
+	{"w_then_1d_later_then_31d_earlier", []int64{0, day, -month}},
+}
+
+func promSelectParts(x *Exec, cluster bool, w Win, fn string, reg promRegime, shifts []int64) []Part {
+	qr, err := promQuerier(x, cluster, w)
+	if err != nil {
+		return []Part{{Win: w, Resp: Resp{Status: -1, Err: err.Error()}}}
+	}
+	var parts []Part
+	for _, d := range shifts {
+		pw := shiftWin(w, d, fmt.Sprintf("%+dh", d/3600e9))
+		x.taken()
+		r := promSelectOn(qr, pw, fn, reg)
+		parts = append(parts, Part{Win: pw, Resp: r, Stmts: x.taken()})
+	}
+	return parts
+}
+
+// union: Must / Allowed of a request that reads the window and the same window moved by each shift.
+func union(f func(Win, int64) bool, shifts ...int64) func(Win, int64) bool {
+	return func(w Win, ts int64) bool {
+		if f(w, ts) {
+			return true
+		}
+		for _, d := range shifts {
+			if f(shiftWin(w, d, ""), ts) {
+				return true
+			}
+		}
+		return false
+	}
 }
 
 // ---- tail -----------------------------------------------------------------------------------------------------
